@@ -5,8 +5,9 @@ VARIABLES input, done
 RECURSIVE Str(_)
 Str(s) == IF s = <<>> THEN "" ELSE Head(s) \o Str(Tail(s))
 LettersDef == {"m", "x", "l", "h", "d", "X", "n", "D", "R", "t", "~", "u", "c", "k", "a", "e", "s", "g", "i", "r", "v", "o", "f", "M", "L", "T", "P", "I", "p", "b", "y", "z"}
-AlphabetDef == {"{", "}", "(", ")", "\\", ":", "<", ">", ".", "9", "m", "x", "~"}
+AlphabetDef == {"{", "}", "(", ")", "\\", ":", "<", ">", ".", "9", "m", "x", "~", "^"}
 DigitsDef == {"0", "1", "2", "3", "4", "5", "6", "7", "8", "9"}
+OtherAlnumDef == {"^"}   \* "^" stands for U+0663 ARABIC-INDIC DIGIT THREE
 RecInfo == [lvl |-> <<"I", "N", "F", "O">>, msg |-> <<"h", "~", "y">>, target |-> <<"t", "g">>, module |-> <<"m", "o", "d">>,
             file |-> Absent, line |-> <<"4", "2">>, thread |-> <<"t", "h", "r">>, mdc |-> (<<"k">> :> <<"v", "~">>)]
 RECURSIVE SetToSeq(_)
